@@ -18,7 +18,7 @@ TRUSTED = [
     "derive(PartialEq) compares every field; [u8; N] == [u8; N] compares every byte",
 ]
 NOT_DECIDED = ["that a changed hash input changes the SHA-1 output", "that a different password yields a different verifier"]
-FLOORS = {"binding": 5, "gate": 2, "whole-value": 2, "operands": 2, "error-content": 2, "who-may-construct": 2, "transcript": 2, "ok-content": 2, "credential-identity": 6}
+FLOORS = {"binding": 5, "gate": 2, "whole-value": 2, "operands": 2, "error-content": 2, "who-may-construct": 2, "transcript": 2, "ok-content": 2, "credential-identity": 6, "validated-key": 3}
 
 
 def applicable(feats):
@@ -105,8 +105,16 @@ def check(ctx, rep):
     # stored text is the upper case of character k, nobody else builds the type.
     from rules import c13, c01
     c13.check(ctx, c01.rep_select(rep, "credential-identity", {"length-gate", "normal-form", "constructors", "who-may-construct"}))
+    # ... and the client public key the server computes with to be one the validation let through:
+    # with A = 0 (mod N) the shared secret is 0 whatever the verifier is, and a proof can be forged
+    # without the password.  C04's `validated` obligations (who may construct a PublicKey, private
+    # field, the checked constructors) are necessary here.
+    from rules import c04
+    c04.check(ctx, c01.rep_select(rep, "validated-key", {"validated", "reject-set"}))
     from rules import c03
     binding = ("srp_internal::calculate_x", "srp_internal::calculate_password_verifier", "srp_internal::calculate_client_proof", "srp_internal_client::calculate_client_proof_with_custom_value", "srp_internal::calculate_server_proof")
+    if not ctx.has("srp_internal_client::calculate_client_proof_with_custom_value"):
+        binding += (c03.CLIENT_ROOT,)       # folded into the constructor: C03 decides the client's M1 end to end there
     rf = util.Refile(rep, "binding", {"transcript", "formula"}, lambda fn: fn in binding)
     c03.transcripts(ctx, rf)
     c03.formulas(ctx, rf)
@@ -154,6 +162,17 @@ def check(ctx, rep):
     cc = roles.ctor_field_roles(ctx, "client::SrpClientChallenge::new", "client::SrpClientChallenge", {1: "U"},
                                 lambda c: "M1" if util.is_call(c, "srp_internal_client::calculate_client_proof_with_custom_value") else ("A" if (util.is_call(c) and c[1].endswith("::expect")) else ("K" if util.is_call(c, "srp_internal::calculate_interleaved") else None)))
     ci = roles.inv(cc or {})
+    if not all(k in ci for k in ("U", "M1", "A", "K")):
+        # the four fields have four different types: bind the roles by type when the functions
+        # that used to produce them (and identified them) have been folded into something else
+        fs_ = fb.adt_fields("client::SrpClientChallenge") or []
+        by_ty = {}
+        for i_, f_ in enumerate(fs_):
+            by_ty.setdefault(fb.ty(f_["ty"]).path, []).append(i_)
+        want_ty = {"U": "normalized_string::NormalizedString", "M1": "key::Proof", "A": "key::PublicKey", "K": "key::SessionKey"}
+        if all(len(by_ty.get(t_, [])) == 1 for t_ in want_ty.values()) and c03.client_view(ctx)["ok"]:
+            ci = {r_: by_ty[t_][0] for r_, t_ in want_ty.items()}
+            cc = {v_: k_ for k_, v_ in ci.items()}
     if not all(k in ci for k in ("U", "M1", "A", "K")):
         rep.violation("operands", "client::SrpClientChallenge", "roles", "cannot bind roles of SrpClientChallenge fields: %s" % cc)
     else:
